@@ -303,6 +303,12 @@ func (g *Gen) Actions(fail func(t *rapid.T, err error)) map[string]func(*rapid.T
 	})
 	create := do("CREATE", func(t *rapid.T) error {
 		d := g.DirRef(t)
+		if pct(t, 8, "withsize?") {
+			// initial attributes: a size within and beyond the announced maximum
+			max := x.M.Lim.MaxFileSize
+			size := pick(t, []uint64{0, 1, 5000, 9 * BlockSize, max, max + 1, 1 << 40, 1 << 63, ^uint64(0)}, "initsize")
+			return x.CreateWithSize(d, g.NewName(t, d.N), size, rapid.Bool().Draw(t, "guarded"))
+		}
 		return x.Create(d, g.NewName(t, d.N))
 	})
 	mkdir := do("MKDIR", func(t *rapid.T) error {
